@@ -101,6 +101,19 @@ broker).  A provider is a dependency too: it echoes the Context it was given.  S
 execution with an error of its own while its dependencies are resolved (no body, no read) - that is an observation,
 not a harness failure.
 
+WHO HOLDS THE ARGUMENT OBJECTS is part of the case (`pobj` of a message plan whose task has a validated parameter of a
+container kind - `dany` / `lany` / `any` = Dict[str, Any] / List[Any] / Any, or dict / list / set / dc / csv from a raw
+dict / list): the PRODUCER keeps argument object number `obj` for the whole case and the message is not built before
+the case starts but when it is kicked - the producer rewrites its object in place to the value this message is to
+carry (`raw`; nested containers stay the objects they are), puts that very object into the call of the task's real
+kicker (InMemoryBroker path with send = kicker) or into a TaskiqMessage that the broker's own formatter serializes at
+that moment (every other path: kick(), Receiver.callback, the scripted listen()), and - `after`: scribble / clear, at
+once or `delay` later - goes on using the object.  `kicked` logs what the message held when it was serialized,
+`prod_after` the producer's later write.  `prod.reuse`: the producer also reuses one labels dict / args list / kwargs
+dict for every kick.  `fmt` of a case: the broker's formatter (absent = what the broker has, "proxy" = a ProxyFormatter
+set with with_formatter, "json" = JSONFormatter), `ser`: "pickle" = PickleSerializer instead of the JSON one.
+Executions' `val` / `valtmp` marks go into plain lists / dicts nested in the object they received too.
+
 The execution an event belongs to is carried by a ContextVar set by the harness task that calls
 `Receiver.callback` (propagated into the worker thread of sync task functions by the loop subclass) - it does
 not go through anything the properties are about."""
@@ -300,17 +313,27 @@ class IntList(list):
 
 # annotation kinds of the validated parameter `pv` (process-wide objects, as the types of a worker are)
 ANNS = {"jl": pydantic.Json[List[int]], "jd": pydantic.Json[Dict[str, int]], "csv": Tags, "list": List[int],
-        "set": Set[int], "dict": Dict[str, int], "dc": Box, "pdc": PBox, "ilist": IntList, "str": str}
+        "set": Set[int], "dict": Dict[str, int], "dc": Box, "pdc": PBox, "ilist": IntList, "str": str,
+        # containers of anything: validation builds a new top-level container at most, whatever is nested in it stays
+        # the object the decoded message holds
+        "dany": Dict[str, Any], "lany": List[Any], "any": Any}
 NOPV = object()
 
 
 def mark_val(obj, e):
-    """execution e writes its own mark into the object it was given; False when the object cannot be written to"""
+    """execution e writes its own mark into the object it was given - and into every plain list / dict nested in it;
+    False when the object cannot be written to"""
     if isinstance(obj, list):
+        for x in obj:
+            if isinstance(x, (list, dict)):
+                mark_val(x, e)
         obj.append(-(e + 1))
     elif isinstance(obj, set):
         obj.add(-(e + 1))
     elif isinstance(obj, dict):
+        for x in obj.values():
+            if isinstance(x, (list, dict)):
+                mark_val(x, e)
         obj["x%d" % e] = e
     elif isinstance(obj, Tags):
         obj.tags.append("x%d" % e)
@@ -327,11 +350,17 @@ def unmark_val(obj, e):
     if isinstance(obj, list):
         if -(e + 1) in obj:
             obj.remove(-(e + 1))
+        for x in obj:
+            if isinstance(x, (list, dict)):
+                unmark_val(x, e)
     elif isinstance(obj, set):
         obj.discard(-(e + 1))
     elif isinstance(obj, dict):
         if obj.get("x%d" % e) == e:
             del obj["x%d" % e]
+        for x in obj.values():
+            if isinstance(x, (list, dict)):
+                unmark_val(x, e)
     elif isinstance(obj, Tags):
         if "x%d" % e in obj.tags:
             obj.tags.remove("x%d" % e)
@@ -378,6 +407,8 @@ class Run:
         self.closed_toks = set()  # tokens of the dependencies whose teardown has completed
         self.awaitables = []    # what the registered callables of the `fn` kinds handed back
         self.loop = None
+        self.pobjs = {}         # number -> the argument object the PRODUCER keeps and rewrites between kicks (`pobj`)
+        self.pbufs = None       # the producer's reused labels dict / args list / kwargs dict (`prod.reuse`)
 
     def ev(self, *a):
         self.log.append(list(a))
@@ -998,6 +1029,80 @@ def fn_src(t, fn, params, call):
     raise ValueError(fn)
 
 
+# --------------------------------------------------------------------------- the producer's side (`pobj` / `prod`)
+# A message plan with `pobj` = {"obj": k, "after": None | "scribble" | "clear", "delay": microseconds} is not built before
+# the case starts: the PRODUCER keeps argument object number k for the whole case, rewrites it in place to the value
+# this message is to carry (`raw` of the plan) the moment the message is kicked, sends it through the real sending side
+# (the task's kicker, or TaskiqMessage + the broker's own formatter), and - `after` - goes on using the object for its own
+# purposes when it has control again (at once, or `delay` later).  What the message carried is what was serialized.
+def refill(obj, target):
+    """the producer rewrites its object in place to `target`; containers nested in it stay the objects they are wherever
+    the shape allows (a reused buffer: `rows.clear(); rows.extend(...)`, `job["chunk"] = n`)"""
+    import copy
+    if isinstance(obj, dict):
+        for k in [k for k in obj if k not in target]:
+            del obj[k]
+        for k, v in target.items():
+            cur = obj.get(k)
+            if k in obj and type(cur) is type(v) and isinstance(v, (dict, list)):
+                refill(cur, v)
+            else:
+                obj[k] = copy.deepcopy(v)
+    else:
+        same = len(obj) == len(target) and all(type(a) is type(b) for a, b in zip(obj, target))
+        if not same:
+            obj[:] = copy.deepcopy(target)
+            return
+        for k, v in enumerate(target):
+            if isinstance(v, (dict, list)):
+                refill(obj[k], v)
+            else:
+                obj[k] = v
+
+
+def scribble(obj):
+    """the producer goes on working with its object after the kick: every field gets another value, something is added"""
+    items = list(obj.items()) if isinstance(obj, dict) else list(enumerate(obj))
+    for k, v in items:
+        if isinstance(v, (dict, list)):
+            scribble(v)
+        elif isinstance(v, int) and not isinstance(v, bool):
+            obj[k] = v + 500000
+        elif isinstance(v, str):
+            obj[k] = "dead:" + v
+    if isinstance(obj, dict):
+        obj["dead"] = 1
+    else:
+        obj.append(777000)
+
+
+def produce_after(i, m):
+    """what the producer does with its object once it has control again after kicking delivery i"""
+    po = m["pobj"]
+    how = po.get("after")
+    if not how:
+        return
+    run = R
+
+    def act():
+        if R is not run:
+            return
+        obj = R.pobjs[po["obj"]]
+        if how == "clear":
+            obj.clear()
+        else:
+            scribble(obj)
+        if R.pbufs is not None:
+            for buf in R.pbufs:
+                buf.clear()
+        R.ev("prod_after", i, how)
+
+    if po.get("delay"):
+        R.loop.call_later(po["delay"] / 1_000_000, act)
+    else:
+        act()
+
+
 # --------------------------------------------------------------------------- recording collaborators
 def payload_of(err):
     """the payload the stored exception carries (the task function's, see h_finish); for an exception group that of
@@ -1113,6 +1218,15 @@ def _run_case(case):
     extra = {k: path[k] for k in ("max_async_tasks", "await_inplace", "sync_tasks_pool_size") if kind == "inmemory" and k in path}
     broker = InMemoryBroker(propagate_exceptions=bool(case.get("propagate", True)), cast_types=validate, **extra)
     broker.result_backend = RecBackend()
+    if case.get("ser") == "pickle":
+        from taskiq.serializers import PickleSerializer
+        broker.with_serializer(PickleSerializer())
+    if case.get("fmt") == "proxy":
+        from taskiq.formatters.proxy_formatter import ProxyFormatter
+        broker.with_formatter(ProxyFormatter(broker))
+    elif case.get("fmt") == "json":
+        from taskiq.formatters.json_formatter import JSONFormatter
+        broker.with_formatter(JSONFormatter())
     if case.get("middleware", True):
         broker.add_middlewares(RecMiddleware())
     if case.get("user_ctx") is not None:
@@ -1169,26 +1283,34 @@ def _run_case(case):
 
     broker.kick = rec_kick
     datas, sent, calls = [], {}, []
-    for i, m in enumerate(case["msgs"]):
+    via_kicker = kind == "inmemory" and path.get("send", "kick") == "kicker"
+
+    def fields_of(i, m, held=NOPV, bufs=None):
         # several deliveries may carry one task id (duplicate kick) or be the very same message (redelivery: same
         # content, the same bytes object); executions are identified by the delivery index
         c = m.get("content", i)
-        labels = {} if m.get("nolabels") else {"who": c}
+        labels, args, kwargs = bufs if bufs is not None else ({}, [], {})
+        if not m.get("nolabels"):
+            labels["who"] = c
         if m.get("timeout") is not None and not m.get("nolabels"):
             labels["timeout"] = m["timeout"] / 1_000_000
         # extra string labels, keys and values exactly as the plan has them
         labels.update(m.get("slabels") or {})
-        args, kwargs = [c], ({"kw": c} if m.get("kw", True) else {})
+        args.append(c)
+        if m.get("kw", True):
+            kwargs["kw"] = c
         if m.get("raw") is not None and case["tasks"][m["task"]].get("val"):
             # the raw value of the validated parameter, exactly as generated (equal raw values on several messages
-            # are frequent), second positional argument or keyword argument
+            # are frequent) - or the object the producer holds (`pobj`) -, second positional argument or keyword argument
             if m.get("by", "pos") == "pos":
-                args.append(m["raw"])
+                args.append(m["raw"] if held is NOPV else held)
             else:
-                kwargs["pv"] = m["raw"]
+                kwargs["pv"] = m["raw"] if held is NOPV else held
         # the task id the message carries: verbatim when the plan names one
-        fields = dict(task_id=m["tids"] if "tids" in m else "m%d" % m.get("tid", i), task_name=tname(case, m["task"]),
-                      labels=labels, labels_types=None, args=args, kwargs=kwargs)
+        return dict(task_id=m["tids"] if "tids" in m else "m%d" % m.get("tid", i), task_name=tname(case, m["task"]),
+                    labels=labels, labels_types=None, args=args, kwargs=kwargs)
+
+    def dump(m, fields):
         w = m.get("wire") or {}
         if w.get("via") == "raw":
             # written by hand, as a producer that is not this client would: nothing of taskiq touches the strings
@@ -1201,12 +1323,45 @@ def _run_case(case):
             keys = list(d)
             random.Random(w.get("order", 0)).shuffle(keys)
             d = {k: d[k] for k in keys}
-            data = json.dumps(d, ensure_ascii=bool(w.get("ascii", True)),
+            return json.dumps(d, ensure_ascii=bool(w.get("ascii", True)),
                               separators=(",", ":") if w.get("compact") else (", ", ": ")).encode("utf-8")
-        else:
-            data = broker.formatter.dumps(TaskiqMessage(**fields)).message
+        return broker.formatter.dumps(TaskiqMessage(**fields)).message
+
+    for i, m in enumerate(case["msgs"]):
+        if m.get("pobj") is not None:
+            # built by the producer when it is kicked (produce)
+            datas.append(None)
+            calls.append(None)
+            continue
+        fields = fields_of(i, m)
+        data = dump(m, fields)
         datas.append(sent.setdefault(data, data))
         calls.append(types.SimpleNamespace(**fields))
+
+    def produce(i, m):
+        """the producer's side of delivery i: its argument object rewritten in place to what this message is to carry,
+        the message built around that very object and - unless the task's kicker does that - serialized by the broker's
+        own formatter now; then the producer has control again"""
+        po = m["pobj"]
+        obj = R.pobjs.setdefault(po["obj"], type(m["raw"])())
+        if type(obj) is not type(m["raw"]) or not isinstance(obj, (dict, list)):
+            raise RuntimeError("harness: producer object %r cannot hold %r" % (po["obj"], m["raw"]))
+        refill(obj, m["raw"])
+        bufs = None
+        if (case.get("prod") or {}).get("reuse"):
+            # one labels dict / args list / kwargs dict for every kick
+            if R.pbufs is None:
+                R.pbufs = ({}, [], {})
+            for buf in R.pbufs:
+                buf.clear()
+            bufs = R.pbufs
+        fields = fields_of(i, m, obj, bufs)
+        calls[i] = types.SimpleNamespace(**fields)
+        R.ev("kicked", i, {"args": jsonable(fields["args"]), "kwargs": jsonable(fields["kwargs"]),
+                           "labels": jsonable(fields["labels"])})
+        if not via_kicker:
+            datas[i] = dump(m, fields)
+            produce_after(i, m)
 
     async def send(i, m):
         """delivery i handed to the InMemoryBroker: it spawns (or, await_inplace, awaits) the callback of the receiver
@@ -1225,6 +1380,8 @@ def _run_case(case):
                     kicker = decl.kicker()
                 R.sending.add(i)
                 await kicker.with_task_id(msg.task_id).with_labels(**msg.labels).kiq(*msg.args, **msg.kwargs)
+                if m.get("pobj") is not None:
+                    produce_after(i, m)     # the kicker has serialized the message; the producer has control again
             else:
                 await real_kick(BrokerMessage(task_id=msg.task_id, task_name=msg.task_name, message=datas[i],
                                               labels=msg.labels))
@@ -1268,6 +1425,8 @@ def _run_case(case):
         EXEC.set(i)
         if m.get("start"):
             await asyncio.sleep(m["start"] / 1_000_000)
+        if m.get("pobj") is not None:
+            produce(i, m)
         if receiver is None and live is None:
             return await send(i, m)
         akind = m.get("ackable", "sync")
